@@ -254,4 +254,114 @@ theorem size_counts_superseded_witness :
     ∧ holdsReload s bs [0, 1, 2, 3] = some "size-premature explained-by=counting-deleted-blocks block=0" := by
   decide
 
+/-! ## the judge's clauses hold for the model (link between `holdsFast` and the transcription) -/
+
+/-- Well-formed input of one `deletableBlocks` call: distinct ULIDs and the two range hypotheses. -/
+def WF (s : Settings) (bs : List Blk) : Prop :=
+  (bs.map (·.id)).Nodup ∧ timeInRange bs = true ∧ sizeInRange s.headSize bs = true
+
+theorem id_inj : ∀ {bs : List Blk}, (bs.map (·.id)).Nodup → ∀ {a b : Blk}, a ∈ bs → b ∈ bs → a.id = b.id → a = b := by
+  intro bs
+  induction bs with
+  | nil => intro _ a b ha; cases ha
+  | cons x xs ih =>
+    intro hnd a b ha hb hid
+    simp only [List.map_cons, List.nodup_cons, List.mem_map, not_exists, not_and] at hnd
+    rcases List.mem_cons.mp ha with hax | hax
+    · rcases List.mem_cons.mp hb with hbx | hbx
+      · rw [hax, hbx]
+      · exact absurd (hax ▸ hid).symm (hnd.1 b hbx)
+    · rcases List.mem_cons.mp hb with hbx | hbx
+      · exact absurd (hbx ▸ hid) (hnd.1 a hax)
+      · exact ih hnd.2 hax hbx hid
+
+theorem contains_ids_iff {bs l : List Blk} (hnd : (bs.map (·.id)).Nodup) (hsub : ∀ x ∈ l, x ∈ bs)
+    {b : Blk} (hb : b ∈ bs) : (l.map (·.id)).contains b.id = true ↔ b ∈ l := by
+  simp only [List.contains_eq_mem, List.mem_map, decide_eq_true_eq]
+  constructor
+  · rintro ⟨x, hx, hid⟩
+    exact id_inj hnd (hsub x hx) hb hid ▸ hx
+  · exact fun h => ⟨b, h, rfl⟩
+
+theorem timeInRange_spec {bs : List Blk} (h : timeInRange bs = true) :
+    ∀ a ∈ bs, ∀ b ∈ bs, I64 (a.maxt - b.maxt) := by
+  intro a ha b hb
+  simp only [timeInRange, List.all_eq_true, decide_eq_true_eq] at h
+  exact h a ha b hb
+
+/-- Clause *time* of the judge holds for the model (non-negative durations; for negative ones see
+    `time_negative_duration`). -/
+theorem model_time_clause (s : Settings) (bs : List Blk) (hwf : WF s bs) (hR : 0 ≤ s.retention) :
+    timeOk s.retention bs ((beyondTime s.retention (sortDesc bs)).map (·.id)) = true := by
+  obtain ⟨hnd, htr, _⟩ := hwf
+  have hsub : ∀ x ∈ beyondTime s.retention (sortDesc bs), x ∈ bs := by
+    intro x hx
+    obtain ⟨n, _, hn⟩ := beyondTime_suffix s.retention (sortDesc bs)
+    rw [hn] at hx
+    exact mem_sortDesc.mp (List.mem_of_mem_drop hx)
+  unfold timeOk
+  by_cases hpos : s.retention > 0
+  · rw [if_pos hpos, List.all_eq_true]
+    intro b hb
+    rw [beq_iff_eq, Bool.eq_iff_iff, contains_ids_iff hnd hsub hb,
+      time_exact_blocks s.retention hpos bs (timeInRange_spec htr) b]
+    simp [expired, hpos, hb]
+  · have h0 : s.retention = 0 := by omega
+    rw [if_neg hpos, if_pos h0, List.all_eq_true]
+    intro b hb
+    have : beyondTime s.retention (sortDesc bs) = [] := by
+      cases sortDesc bs with
+      | nil => rfl
+      | cons b0 rest => simp [beyondTime, h0]
+    simp [this]
+
+/-- Clause *compose* of the judge holds for the model: deletableBlocks = flagged ∪ time ∪ size. -/
+theorem model_compose_clause (s : Settings) (bs : List Blk) (hnd : (bs.map (·.id)).Nodup) :
+    composeOk bs ((beyondTime s.retention (sortDesc bs)).map (·.id)) ((beyondSize s (sortDesc bs)).map (·.id))
+      (deletableBlocks s bs) = true := by
+  have hsubT : ∀ x ∈ beyondTime s.retention (sortDesc bs), x ∈ bs := by
+    intro x hx
+    obtain ⟨n, _, hn⟩ := beyondTime_suffix s.retention (sortDesc bs)
+    rw [hn] at hx
+    exact mem_sortDesc.mp (List.mem_of_mem_drop hx)
+  have hsubS : ∀ x ∈ beyondSize s (sortDesc bs), x ∈ bs := by
+    intro x hx
+    obtain ⟨n, _, hn⟩ := beyondSize_suffix s (sortDesc bs)
+    rw [hn] at hx
+    exact mem_sortDesc.mp (List.mem_of_mem_drop hx)
+  unfold composeOk
+  rw [List.all_eq_true]
+  intro b hb
+  rw [beq_iff_eq, Bool.eq_iff_iff]
+  simp only [Bool.or_eq_true]
+  rw [contains_ids_iff hnd hsubT hb, contains_ids_iff hnd hsubS hb]
+  unfold deletableBlocks
+  rw [contains_ids_iff hnd (deletable_subset s bs) hb]
+  simp only [deletableSel, List.mem_append, List.mem_filter, mem_sortDesc]
+  constructor
+  · rintro ((⟨_, hd⟩ | h) | h)
+    · exact Or.inl (Or.inl hd)
+    · exact Or.inl (Or.inr h)
+    · exact Or.inr h
+  · rintro ((hd | h) | h)
+    · exact Or.inl (Or.inl ⟨hb, hd⟩)
+    · exact Or.inl (Or.inr h)
+    · exact Or.inr h
+
+example : WF ⟨10, 100, .fin 0, 0, 7⟩ [⟨0, 0, 10, 30, false, []⟩, ⟨1, 0, 5, 80, true, [0]⟩] := by
+  refine ⟨by decide, by decide, by decide⟩
+
+/-- Full link statement (`holdsFast` accepts the model's own output on every well-formed input).  Proved
+    so far: the *time* clause (`model_time_clause`, `time_negative_duration`), the *compose* clause
+    (`model_compose_clause`), the *oldest-first* clause in the form `deletable_is_suffix_blocks`, the
+    *disabled* clause (`retention_disabled_deletes_nothing`).  Missing: transporting `size_exact` (a
+    statement about the prefix of the sorted list) to the judge's order-free `sizeOk` (sums over filters
+    of the unsorted list) — a permutation argument over `sumSizes` that is not done yet.  The judge is run
+    on every model output in the correspondence (model = implementation on all explored cases and the judge
+    accepts them), which is a test, not a proof. -/
+def model_holds_fast_full : Prop :=
+  ∀ (s : Settings) (bs : List Blk), WF s bs →
+    holdsFast s bs ((beyondTime s.retention (sortDesc bs)).map (·.id))
+      ((beyondSize s (sortDesc bs)).map (·.id)) (deletableBlocks s bs) = none
+
 end Prom.C09
